@@ -115,6 +115,8 @@ def monitors(r):
                             maybe_dropped.add(x)
         elif w[0] == "yield":
             sg, idn = int(w[1]), int(w[2])
+            if "CORRUPT" in w:
+                probs["C10"].append("line %d: the record handed out for delivery %d of signal %d is not a faithful copy of that delivery's siginfo_t (first difference at byte %s of %d)" % (i, idn, sg, w[-1], 128))
             if idn not in started or started[idn] != sg:
                 probs["C10"].append("line %d: yielded a record (signal %d, id %d) that no delivery carried" % (i, sg, idn))
             elif idn in yielded:
@@ -150,3 +152,143 @@ def monitors(r):
         elif not stuck and not r["status"].startswith("END deadlock"):
             probs["C09"].append("scenario ended with %s" % r["status"])
     return probs
+
+
+# ------------------------------------------------------------------ lock-step with the L8q model
+SITE = re.compile(r"@(\w+)#(\d+)")
+ADDR = re.compile(r"\?([0-9a-f]+)")
+
+
+def abstract(full, scenario):
+    """Turn the full shim trace of a queueing run into the abstract events of Model/IterQ.lean: one line
+    per channel operation half (send-begin/-end, recv-begin/-end: the dequeue's decisive load or CAS, the
+    enqueue's successful CAS), the closed flag, the self-pipe calls and the callbacks. Returns
+    (lines, schedule, problems). Delivery ids are renamed to their rank in send-begin order."""
+    groups = []            # [tid, [call lines], event line or None, [yield lines], [ret lines]]
+    last = {}              # tid -> index into groups of the thread's last kept event
+    pending_call = {}      # tid -> call lines waiting for the thread's next kept event
+    st = {}                # tid -> dict(kind, sig, id, pos, wait)
+    base = [None]
+    rank = {}
+    probs = []
+
+    def emit(tid, h, text):
+        groups.append([tid, pending_call.pop(tid, []), "t%d %s%s" % (tid, "H " if h else "", text), [], []])
+        last[tid] = len(groups) - 1
+
+    def slot_index(addr, expect=None):
+        a = int(addr, 16)
+        if base[0] is None:
+            base[0] = a - 8 * (expect if expect is not None else 0)
+        d = a - base[0]
+        if d % 8 != 0 or d < 0:
+            probs.append("slot access at an address that is no element of the slot array (offset %d)" % d)
+            return -1
+        return d // 8
+
+    for l in full:
+        m = LINE.match(l)
+        if not m:
+            continue
+        tid, h, body = int(m.group(1)), bool(m.group(2)), m.group(3)
+        w = body.split()
+        if w[0] == "call":
+            if w[1] == "deliver":
+                st[tid] = {"kind": "deliver", "sig": int(w[2]), "id": int(w[3]), "wait": None}
+                pending_call.setdefault(tid, []).append("t%d call deliver %s" % (tid, w[2]))
+            else:
+                st[tid] = {"kind": w[1], "wait": None, "pos": None}
+                pending_call.setdefault(tid, []).append("t%d call %s" % (tid, " ".join(w[1:])))
+            continue
+        if w[0] == "yield":
+            g = groups[last[tid]] if tid in last else None
+            txt = "t%d yield %s %s" % (tid, w[1], rank.get(int(w[2]), "?%s" % w[2]))
+            (g[3] if g else pending_call.setdefault(tid, [])).append(txt)
+            continue
+        if w[0] == "ret":
+            g = groups[last[tid]] if tid in last else None
+            txt = "t%d %s" % (tid, body)
+            (g[4] if g else pending_call.setdefault(tid, [])).append(txt)
+            continue
+        if w[0] == "cb":
+            emit(tid, False, body)
+            continue
+        if w[0] == "sys":
+            if w[1] == "send":
+                emit(tid, h, "wake %s" % ("ok" if body.endswith("= 1") else "full"))
+            elif w[1] == "recv":
+                emit(tid, h, "recv %s" % body.split("=")[-1].strip())
+            continue
+        sm = SITE.search(body)
+        if not sm:
+            continue
+        site = sm.group(1) + "#" + sm.group(2)
+        s = st.get(tid, {})
+        am = ADDR.search(body)
+        if site == "close#1":
+            emit(tid, h, "store closed")
+        elif site == "is_closed#1":
+            emit(tid, h, "load closed = %s" % w[3])
+        elif site == "store#1" and s.get("kind") == "deliver" and w[0] == "load":
+            idx = slot_index(am.group(1), s["sig"])
+            if idx != s["sig"]:
+                probs.append("delivery of %d stores into the slot of signal %d" % (s["sig"], idx))
+            if int(w[3]) == 0:
+                rank[s["id"]] = len(rank) + 1
+                emit(tid, h, "send-begin %d drop" % s["sig"])
+            else:
+                s["wait"] = "deq"
+        elif site == "load#1" and w[0] == "load" and s.get("kind") != "deliver":
+            pos = slot_index(am.group(1))
+            s["pos"] = pos
+            if int(w[3]) == 0:
+                emit(tid, h, "recv-begin %d none" % pos)
+            else:
+                s["wait"] = "deq"
+        elif site in ("dequeue#1", "dequeue#2") and s.get("wait") == "deq":
+            decided = None
+            if w[0] == "load":
+                if int(w[3]) & 7 == 0:
+                    decided = False
+            elif "= ok" in body:
+                decided = True
+            elif "= fail" in body:
+                v = int(body.split("= fail")[1].split()[0])
+                if v & 7 == 0:
+                    decided = False
+            if decided is not None:
+                if s["kind"] == "deliver":
+                    rank[s["id"]] = len(rank) + 1
+                    emit(tid, h, "send-begin %d %s" % (s["sig"], "ok" if decided else "drop"))
+                else:
+                    emit(tid, h, "recv-begin %d %s" % (s["pos"], "some" if decided else "none"))
+                s["wait"] = "enq" if decided else None
+        elif site == "enqueue#2" and s.get("wait") == "enq" and "= ok" in body:
+            if s["kind"] == "deliver":
+                emit(tid, h, "send-end %d" % s["sig"])
+            else:
+                emit(tid, h, "recv-end %d" % s["pos"])
+            s["wait"] = None
+    lines, sched = [], []
+    for tid, calls, ev, ys, rets in groups:
+        lines += calls + [ev] + ys + rets
+        sched.append(str(tid))
+    return lines, sched, probs
+
+
+def lockstep(scenario):
+    """run one queueing scenario on the real code with the full trace, and the L8q model on the schedule of
+    its abstract events"""
+    sc = [l for l in scenario if l != "setup trace"]
+    text = "\n".join(sc[:1] + ["setup trace"] + sc[1:]) + "\n"
+    rc, out, err = core.run_harness("iterq", text, timeout=30)
+    status = next((l for l in out if l.startswith("END")), "END crash rc=%d %s" % (rc, " ".join(err.split())[-160:]))
+    full = [l for l in out if not l.startswith(("SCHEDULE", "END", "PARKED"))]
+    impl, sched, probs = abstract(full, sc)
+    dtext = "\n".join([l for l in sc if not l.startswith(("schedule", "delay"))] + ["cap 278 prefill 0", "schedule " + " ".join(sched), "---"]) + "\n"
+    mout = core.run_driver("iterq", dtext, timeout=120)
+    model = [l for l in mout if not l.startswith("END") and l != "---"]
+    mend = next((l for l in mout if l.startswith("END")), "END ?")
+    st = status.split()[1] if len(status.split()) > 1 else "?"
+    st = {"deadlock": "blocked", "done": "done"}.get(st, st)
+    return {"scenario": sc, "impl": impl, "model": model, "schedule": sched, "status": "END " + st, "model_end": mend, "problems": probs}
